@@ -30,8 +30,7 @@ THEOREMS = {
     "C20_inter_chain_def": "inter_chain_mse_variance = population variance over the distinct chain ids of the per-chain MSE (any labelling: unequal lengths, interleaved, non-contiguous)",
     "C20_inter_chain_one_chain": "one chain => inter-chain variance 0",
     "C20_mean_predictions_def": "mean_predictions[i] = (1/m) * sum_j P[i][j]",
-    "C20_eval_save_load": "load_h5(save_h5(e)) = e for every evaluation with >= 1 experiment",
-    "C20_eval_save_load_empty_refuted": "REFUTED clause: an evaluation with 0 experiments (accepted by the constructor) saves but does not load (TypeError)",
+    "C20_eval_save_load": "load_h5(save_h5(e)) = e for EVERY evaluation the constructor accepts (0 experiments / 0 posterior samples included)",
     "C20_calculate_mse_def": "calculate_mse = (1/n) * sum_i ((1/T) * sum_theta p[theta][i] - o[i])^2; NaN when T = 0 or n = 0",
     "C20_single_effect_def": "effect dict: for every sample s and id t occurring in the arrays, 1 if t is control, else the mean of the observations of s's rows in which t occurs and every other column is control; no entry if there is none; no other entries (ids >= -1, arity >= 2, any column)",
     "C20_effect_map_rejects": "arity < 2 -> ValueError; mask/array length mismatch -> IndexError",
@@ -48,7 +47,7 @@ THEOREMS = {
 }
 ASSUMPTIONS = [
     "floating point rounding is not modelled: the model computes the real-number value over exact rationals; comparison tolerance 1e-9",
-    "h5py dataset write/read is the identity on float64/int64/bytes arrays; np.char.encode/decode (UTF-8) is the identity on non-empty string arrays (exercised by every evalio case, incl. non-ASCII names)",
+    "h5py dataset write/read is the identity on float64/int64/bytes arrays incl. empty shapes; batchie.data.encode_string_array/decode_string_array (UTF-8) is the identity on string arrays (exercised by every evalio case, incl. non-ASCII names and arrays without elements)",
     "sqrt is an oracle (libm on the nearest double) in the model",
     "thetas are stubs whose prediction is a function of (theta index, sample id, treatment ids of the row)",
     "pandas merge(how='left') on unique keys is a keyed lookup (Screen constructor with an existing mapping)",
@@ -56,19 +55,13 @@ ASSUMPTIONS = [
 ]
 EXPLANATION = ("Model: Model/Metrics.v, Model/Synergy.v, Model/Corr.v; definitions (loop form) in Proofs/C20Spec.v. "
                "NaN results of numpy (mean of an empty array, 0/0) are explicit Err 6 / None in the model. Observed on the unchanged tree: "
-               "an evaluation with zero experiments saves but raises TypeError on load (np.char.encode of an empty array is float64); "
+               "(an evaluation with zero experiments used to save but not load; repaired in /repo 6d95451, kept as corpus case); "
                "the correlation matrix of a single-sample screen (or of samples with identical average predictions) is NaN; where a "
                "sample's average predictions equal the across-sample mean only up to rounding, the implementation returns normalised rounding "
                "noise instead of NaN (such entries, 0/0 over the reals, are not compared; feature fp-noise-where-undefined). "
                "Not modelled: the CLI wrappers, predict_* other than predict_viability_avg.")
 
-# The literal clause "an evaluation file reloads unchanged" fails for the evaluation with zero experiments
-# (Props C20_eval_save_load_empty_refuted).  True: pred reports it (signature SIG_EMPTY_RELOAD, for
-# KNOWN_FINDINGS.json); False: it is only tagged as a feature.
-REPORT_EMPTY_EVAL_RELOAD = True
-SIG_EMPTY_RELOAD = "evalio:empty-evaluation-does-not-reload"
-
-TAGS = {1: "ValueError", 2: "TypeError", 4: "IndexError", 5: "KeyError"}
+TAGS = {1: "ValueError", 4: "IndexError", 5: "KeyError"}
 NAN = "nan"
 TOL = 1e-9
 
@@ -295,7 +288,8 @@ def _gen_remap(rng):
                 rkeys=[rng.randint(0, 9) for _ in range(12)], skeys=[rng.randint(0, 9) for _ in range(6)])
 
 
-# the vm_compute witnesses of the two *_refuted theorems, replayed on the implementation in every run
+# the evaluation with 0 experiments that did not reload before /repo commit 6d95451 (regression case, also in
+# corpus/C20/empty_evaluation.json) and the vm_compute witness of the *_refuted theorem, replayed in every run
 WITNESS_EMPTY_EVAL = dict(kind="evalio", m=2, preds=[], obs=[], chains=[0, 0], names=[], chain_mode="one")
 WITNESS_SINGLE_SAMPLE_CORR = dict(kind="corr", arity=2, names=[["a", "b"], ["a", "c"]], doses=[[1.0, 1.0], [1.0, 1.0]],
                                   samples=["s1", "s1"], nthetas=1, mode="random", remap=None,
@@ -419,7 +413,7 @@ def _run_eval(desc):
     wire = [0 if desc["kind"] == "eval" else 1, m, [[frac(x) for x in r] for r in preds], [frac(x) for x in obs],
             chains, [s2l(x) for x in names]]
     feats = [desc["kind"], "chains:" + desc["chain_mode"], "shape:%s" % ("empty" if n == 0 or m == 0 else "nonempty")]
-    if n == 0 or m == 0 or desc["chain_mode"].startswith("mismatch"):
+    if desc["chain_mode"].startswith("mismatch") or (desc["kind"] == "eval" and (n == 0 or m == 0)):
         feats.append("trivial")
     if len(set(chains)) > 1 and len({chains.count(c) for c in set(chains)}) > 1:
         feats.append("unequal-chain-lengths")
@@ -514,15 +508,13 @@ def _run_eval_io(desc, mk, wire, feats, n, m):
     pred = None
     if isinstance(e2, ImplError):
         impl = e2
-        if n > 0:
-            pred = "evaluation with %d experiment(s) does not reload: %r" % (n, e2)
-        else:
-            feats.append("empty-eval-reload-raises")
-            if REPORT_EMPTY_EVAL_RELOAD:
-                pred = "evaluation with 0 experiments was saved but does not reload: %r" % (e2,)
+        pred = "evaluation with %d experiment(s) does not reload: %r" % (n, e2)
     else:
         impl = [e2.predictions.tolist(), e2.observations.tolist(), [int(x) for x in e2.chain_ids], [str(x) for x in e2.sample_names]]
         same = (e2.predictions.shape == e.predictions.shape and e2.predictions.dtype == e.predictions.dtype
+                and e2.observations.shape == e.observations.shape and e2.observations.dtype == e.observations.dtype
+                and e2.chain_ids.shape == e.chain_ids.shape and e2.sample_names.shape == e.sample_names.shape
+                and np.issubdtype(e2.sample_names.dtype, str)
                 and [[x.hex() for x in r] for r in e2.predictions.tolist()] == [[x.hex() for x in r] for r in e.predictions.tolist()]
                 and [x.hex() for x in e2.observations.tolist()] == [x.hex() for x in e.observations.tolist()]
                 and e2.chain_ids.tolist() == e.chain_ids.tolist() and e2.chain_ids.dtype == e.chain_ids.dtype
@@ -531,6 +523,8 @@ def _run_eval_io(desc, mk, wire, feats, n, m):
             pred = "reloaded evaluation differs from the saved one"
         if any(ord(ch) > 127 for s in desc["names"] for ch in s):
             feats.append("non-ascii-names")
+        if n == 0:
+            feats.append("empty-eval-reloads")
 
     def cmp(mo, i):
         def inner(mv, iv):
@@ -1028,6 +1022,4 @@ def shrink(desc):
 
 
 def signature(desc, res):
-    if desc.get("kind") == "evalio" and not desc.get("preds") and (res.get("pred") or "").startswith("evaluation with 0 experiments"):
-        return SIG_EMPTY_RELOAD
     return "%s:%s" % (desc.get("kind"), (res.get("pred") or res.get("disagree") or "")[:40])
